@@ -2,10 +2,11 @@ package main
 
 // svg.* records: C15 (topology/svgicon.go GenerateCompositeSVGdoc / GenerateCompositeSVG).
 //
-//   svg.gen showLabels showHWCID showType showDisplaySize base:hex kinds:hex endOk:01 MASK ROT T  |  OUT
+//   svg.gen showLabels showHWCID showType showDisplaySize base:hex kinds:hex endOk:01 FEAT TOKS MASK ROT T  |  OUT
 //   kinds := one letter per token encoding/xml's Decoder.Token delivers for the base: S start element, E end element,
 //            C / W character data (non-blank / blank), M comment, P processing instruction, D directive;
 //            endOk = the stream ended with io.EOF.  The harness's own judgement, made with encoding/xml only.
+//   FEAT, TOKS := the lossy-feature flags and the token stream of the base (svgbase.go), also made with encoding/xml only
 //   MASK := ~ | + n (id value)^n
 //   ROT  := n (token fmt fmt90 zero90:01)^n     fmt.Sprintf("%03f") of every rotation token of T, and of value+90
 //   OUT  := PR nil strEmpty:01 | PR doc strEmpty:01 kept:01 kept2:01 wellformed:01 tail:01 n NODE^n
@@ -250,9 +251,10 @@ func (e *svgExec) Exec(cmd string, a []string) string {
 		o1, o2, o3, o4 := r.next() == "1", r.next() == "1", r.next() == "1", r.next() == "1"
 		base := r.str()
 		// the token summary is input for model and Spec; it must be the one encoding/xml gives for this base
-		kinds, endOk := r.str(), r.next() == "1"
-		if k, e := tokenKinds(base); k != kinds || e != endOk {
-			panic("bad record: token summary does not belong to the base document")
+		for _, want := range baseSummary(base) {
+			if r.next() != want {
+				panic("bad record: token summary does not belong to the base document")
+			}
 		}
 		var theMap map[uint32]uint32
 		switch r.next() {
@@ -325,7 +327,8 @@ func (e *svgExec) Exec(cmd string, a []string) string {
 }
 
 // base documents of the generator.  On every VALID one (the first validBases entries) the unchanged library keeps the
-// whole content (kept2).  Valid documents on which it does NOT (findings, see lossyBases) are deliberately not here.
+// whole content (kept2).  Valid documents on which it does NOT are in lossyBases / rejectedBases (known findings) and
+// come out of the grammar (svgbase.go); every record carries the lossy-feature flags of its base (FEAT).
 var baseSVGs = []string{
 	`<svg></svg>`,
 	`<svg xmlns="http://www.w3.org/2000/svg" viewBox="0 0 3000 2000" width="100%"></svg>`,
@@ -359,13 +362,13 @@ var baseSVGs = []string{
 	`<!DOCTYPE svg>`,
 	// tokenizes to a start element and then fails
 	`<svg><text>&nbsp;</text></svg>`,
-	`<?xml version="1.1"?><svg/>`,
 }
 
 const validBases = 10
 
 // Valid base documents on which the UNCHANGED library loses or reorders base content (kept2 = 0) or prints a document
-// that is not well-formed.  Findings, reported; NOT used by the generator (`harness c15 -tier findings` prints them).
+// that is not well-formed: the xmldom parse/print round trip.  Known findings (known_findings.json, C15.*); the model
+// (Model/XmldomBase.lean) says what the code does on them, the Spec says the property is false.
 var lossyBases = []string{
 	`<svg><!-- c --></svg>`,                              // comment inside the root dropped
 	`<!-- c --><svg/>`,                                   // comment before the root dropped
@@ -379,6 +382,25 @@ var lossyBases = []string{
 	`<s:svg xmlns:s="http://www.w3.org/2000/svg"><s:rect/></s:svg>`, // element prefixes stripped
 	`<svg><?foo bar?></svg>`,                             // PI moved in front of the root
 	`<?xml version="1.0"?><?xml-stylesheet href="s.css"?><svg/>`, // only the last PI is kept: XML declaration lost
+	// further shapes of the same classes
+	`<svg><text>a<![CDATA[b]]></text></svg>`,             // text and a CDATA section: two tokens, the first is lost
+	`<svg><text>a<!-- c -->b</text></svg>`,               // a comment splits the text: "a" and the comment lost
+	"<svg><text>a<tspan/>\n</text></svg>",                // text before a child, blanks after it: "a" lost
+	`<svg><g a:x="1" b:x="2"/></svg>`,                    // two prefixed attributes with one local name: x twice
+	`<svg/><?foo bar?>`,                                  // PI after the root moved in front of it
+	`<!DOCTYPE svg><?foo bar?><svg/>`,                    // PI after the DOCTYPE moved in front of it
+	`<svg xmlns:xlink="http://www.w3.org/1999/xlink" xlink:href="#a" href="#b"/>`, // duplicate attribute on the root
+}
+
+// Valid documents that encoding/xml (hence xmldom.ParseXML) rejects: the result is empty
+var rejectedBases = []string{
+	`<?xml version="1.0" encoding="ISO-8859-1"?><svg/>`,
+	`<?xml version="1.1"?><svg/>`,
+	`<!DOCTYPE svg [<!ENTITY e "v">]><svg><text>&e;</text></svg>`,
+	"<?xml version='1.0' encoding='iso-8859-1'?>\n<svg><text>\xe6</text></svg>",
+	`<?xml version="1.0" encoding="US-ASCII" standalone="yes"?><svg><g/></svg>`,
+	`<?xml version="1.1" encoding="UTF-8"?>` + "\n" + `<svg viewBox="0 0 1 1"><rect/></svg>`,
+	`<?xml version="1.0"?><!DOCTYPE svg [<!ENTITY col "#f00"> <!ENTITY w "10">]><svg><rect fill="&col;" width="&w;"/></svg>`,
 }
 
 func rotTable(t *topology.Topology) []string {
@@ -453,15 +475,20 @@ func genC15(r *Rng, sessions int, tier string) {
 				o = []bool{r.Bool(), r.Bool(), r.Bool(), r.Bool()}
 			}
 			var base string
-			if tier == "findings" {
-				base = lossyBases[r.Intn(len(lossyBases))]
-			} else if r.Chance(70) {
+			switch k := r.Intn(100); {
+			case k < 30:
 				base = baseSVGs[r.Intn(validBases)]
-			} else {
+			case k < 45:
 				base = baseSVGs[r.Intn(len(baseSVGs))]
+			case k < 57:
+				base = lossyBases[r.Intn(len(lossyBases))]
+			case k < 62:
+				base = rejectedBases[r.Intn(len(rejectedBases))]
+			default:
+				base = grammarBase(r)
 			}
-			kinds, endOk := tokenKinds(base)
-			args := []string{b01(o[0]), b01(o[1]), b01(o[2]), b01(o[3]), hx([]byte(base)), hx([]byte(kinds)), b01(endOk)}
+			args := []string{b01(o[0]), b01(o[1]), b01(o[2]), b01(o[3]), hx([]byte(base))}
+			args = append(args, baseSummary(base)...)
 			// availability map: nil, empty, all available, all masked, random subset (values 0 / non-zero), foreign ids
 			switch r.Intn(6) {
 			case 0, 1:
